@@ -22,6 +22,7 @@ EXPLANATION = (
     "connect. C18.4 routing by the message's own stream/channel, the stream table filled from the channels that are "
     "subscribed; keep-alive scheduled for every subscribed channel and re-armed in a finally; sibling cross-check of "
     "listen-key channels. Convergence after arbitrary fault sequences and timing are liveness and are not claimed."
+    " C18.4 also: the stream routing table accumulates, it is never replaced by one call's channels."
 )
 TRUSTED = ["CPython ast parser", "sa.cfg statement CFG", "mypy class hierarchy", "asyncio.Event semantics"]
 
